@@ -133,15 +133,17 @@ def export_graph(cfg_text, name, env, workers=16, timeout=1500):
         f.write(cfg_text)
     res = tlc("HvsrObjectMC", cfg=path[:-4], workers=workers, timeout=timeout, env=env, workname=f"tlc-{name}")
     require_tlc_ok(res, name)
+    print(f"  [tlc {name}] {res.distinct} states / {res.generated} transitions in {res.wall_s:.1f}s")
     return res, Graph(res.cases)
 
 
 def cfg_text(na, nw, nf, alphabet, ranges, nset, maxits, init, sthr="SThrHalf", export=True, invariants=(), props=(),
-             tdmasks="AllMasks"):
+             tdmasks="AllMasks", dfree=False, nxt="Next"):
     lines = ["CONSTANTS", f"  NA = {na}", f"  NW = {nw}", f"  NF = {nf}", f"  Alphabet <- {alphabet}",
              f"  Ranges <- {ranges}", f"  NSet <- {nset}", f"  MaxIts <- {maxits}", f"  TdMasks <- {tdmasks}",
-             f"  InitSel <- {init}", f"  SThr <- {sthr}", f"  Export = {'TRUE' if export else 'FALSE'}",
-             "INIT Init", "NEXT Next", "VIEW View", "CHECK_DEADLOCK FALSE"]
+             f"  InitSel <- {init}", f"  SThr <- {sthr}", f"  DFree = {'TRUE' if dfree else 'FALSE'}",
+             f"  Export = {'TRUE' if export else 'FALSE'}",
+             "INIT Init", f"NEXT {nxt}", "VIEW View", "CHECK_DEADLOCK FALSE"]
     if export:
         lines += ["INVARIANT ExportState", "ACTION_CONSTRAINT ExportTrans"]
     lines += [f"INVARIANT {i}" for i in invariants]
@@ -236,14 +238,19 @@ class Replayer:
         self.pending = []             # 1-step traces to be validated by TLC (P tier)
         self.good_traces = []         # sample of matching walks, validated as well (binding demo)
         self._noted = set()
+        self.trans_hook = None
         self.stats = dict(states=0, transitions=0, skipped_fdwra=0, mismatches=0, exceptions=0, ops={})
 
-    def replay(self, inst, state_hook=None, max_groups=None, trans_filter=None):
+    def replay(self, inst, state_hook=None, max_groups=None, trans_filter=None, trans_hook=None):
+        self.trans_hook = trans_hook
+        import time
+        t0 = time.time()
         real = Real(self.h, inst, self.alphabet, self.na, self.nw)
         for gi, ck in enumerate(self.graph.groups()):
             if max_groups is not None and gi >= max_groups:
                 break
             self._group(real, ck, state_hook, trans_filter)
+        print(f"  [replay {inst.name()}] {self.stats['states']} states / {self.stats['transitions']} transitions so far, {time.time()-t0:.1f}s")
 
     def _group(self, real, ck, state_hook, trans_filter):
         run = self.run
@@ -291,6 +298,8 @@ class Replayer:
                     continue
                 p = real.project(o2)
                 self.stats["transitions"] += 1
+                if self.trans_hook is not None:
+                    self.trans_hook(real, o2, t, p, cv)
                 self.stats["ops"][a["op"]] = self.stats["ops"].get(a["op"], 0) + 1
                 nontriv = None
                 if skey(t["t"]) != k:
@@ -405,7 +414,7 @@ def validate_traces(traces, consts, name, extra_cfg=""):
         json.dump(traces, f)
     cfg = os.path.join(wd, "TraceHvsrObject_run.cfg")
     with open(cfg, "w") as f:
-        f.write("CONSTANTS\n" + consts + "  Export = FALSE\n" +
+        f.write("CONSTANTS\n" + consts + ("" if "DFree" in consts else "  DFree = FALSE\n") + "  Export = FALSE\n" +
                 "INIT TraceInit\nNEXT TraceNext\nVIEW TraceView\nCHECK_DEADLOCK FALSE\nCONSTRAINT Accepted\n" + extra_cfg)
     res = tlc("TraceHvsrObject", cfg=cfg[:-4], workers=8, timeout=1200, env={"TRACE_FILE": tf}, workname=f"tlc-{name}")
     if res.error and "TIMEOUT" in res.error:
